@@ -120,7 +120,7 @@ pub fn named_like(c: &DayCase, allow_interval_isha: bool) -> bool {
 /// arguments, so the same call must give the same result whatever was computed before it on the same
 /// thread (memoisation keyed on too little, reused buffers, thread-locals).  `c` is computed first,
 /// then each neighbour of it (one argument changed) on the same thread, and the neighbour's result is
-/// compared with the one a fresh thread gives (twelve neighbours: Asr school, the two angles, rounding, an
+/// compared with the one a fresh thread gives (sixteen neighbours: Asr school, the two angles, rounding, an
 /// offset, elevation, weather, date, policy, latitude, longitude, GMT offset).  Returns false after reporting a failure.
 pub fn purity_probe(ctx: &mut Ctx, c: &DayCase) -> bool {
     let flip_asr = c.with(|p| p.asr_shadow_ratio = if matches!(p.asr_shadow_ratio, AsrShadowRatio::Shafi) { AsrShadowRatio::Hanafi } else { AsrShadowRatio::Shafi });
@@ -141,6 +141,16 @@ pub fn purity_probe(ctx: &mut Ctx, c: &DayCase) -> bool {
     east.l.coords.longitude = Longitude::try_from(if lo + 15. <= 180. { lo + 15. } else { lo - 15. }).unwrap();
     let mut zone = c.clone();
     zone.l.gmt = Gmt::try_from(if g + 1. <= 12. { g + 1. } else { g - 1. }).unwrap();
+    // small steps too: a memo keyed on a quantised argument (the hour of the Julian Day, a rounded
+    // coordinate) confuses neighbours that a whole-unit step tells apart
+    let mut zone_q = c.clone();
+    zone_q.l.gmt = Gmt::try_from(if g + 0.25 <= 12. { g + 0.25 } else { g - 0.25 }).unwrap();
+    let mut north_q = c.clone();
+    north_q.l.coords.latitude = Latitude::try_from(if la + 0.01 <= 90. { la + 0.01 } else { la - 0.01 }).unwrap();
+    let mut east_q = c.clone();
+    east_q.l.coords.longitude = Longitude::try_from(if lo + 0.01 <= 180. { lo + 0.01 } else { lo - 0.01 }).unwrap();
+    let mut elev_q = c.clone();
+    elev_q.l.coords.elevation = Elevation::try_from((f64::from(c.l.coords.elevation) + 1.).min(8848.)).unwrap();
     let pol = c.with(|p| {
         p.extreme_latitude_method = match p.extreme_latitude_method {
             ExtremeLatitudeMethod::NearestLatitudeAllPrayersAlways(l) => ExtremeLatitudeMethod::NearestLatitudeFajrIshaAlways(l),
@@ -150,7 +160,8 @@ pub fn purity_probe(ctx: &mut Ctx, c: &DayCase) -> bool {
             _ => ExtremeLatitudeMethod::NearestGoodDayAllPrayersAlways,
         }
     });
-    for (what, v) in [("asr school", flip_asr), ("Fajr angle", fajr_up), ("Isha angle", isha_up), ("rounding", round), ("Asr offset", offset), ("elevation", elev), ("weather", wx), ("next day", next), ("policy", pol), ("latitude", north), ("longitude", east), ("GMT offset", zone)] {
+    for (what, v) in [("asr school", flip_asr), ("Fajr angle", fajr_up), ("Isha angle", isha_up), ("rounding", round), ("Asr offset", offset), ("elevation", elev), ("weather", wx), ("next day", next), ("policy", pol), ("latitude", north), ("longitude", east), ("GMT offset", zone),
+                      ("GMT offset by a quarter hour", zone_q), ("latitude by 0.01 deg", north_q), ("longitude by 0.01 deg", east_q), ("elevation by 1 m", elev_q)] {
         ctx.eval();
         let _ = c.run();
         let seq = v.run();
